@@ -15,6 +15,9 @@ import (
 )
 
 func WriteString(w io.Writer, buf encoding.Bufferer, s string) (n int64, err error) {
+	if len(s) > math.MaxUint16 {
+		return 0, fmt.Errorf("string is too long (%d > %d bytes)", len(s), math.MaxUint16)
+	}
 	b := buf.Buffer(2)
 	l := uint16(len(s))
 	binary.BigEndian.PutUint16(b, l)
